@@ -96,10 +96,18 @@ func gemNumPrefix(s string) string {
 		s = s[:k[0]]
 	}
 	s = strings.TrimRight(s, ".-")
-	for strings.HasSuffix(s, ".0") {
-		s = strings.TrimSuffix(s, ".0")
+	parts := strings.Split(s, ".")
+	for i, p := range parts { // numeric value, not spelling: 01 == 1
+		p = strings.TrimLeft(p, "0")
+		if p == "" {
+			p = "0"
+		}
+		parts[i] = p
 	}
-	return s
+	for len(parts) > 1 && parts[len(parts)-1] == "0" {
+		parts = parts[:len(parts)-1]
+	}
+	return strings.Join(parts, ".")
 }
 
 // inZone reports whether the probe lies in the unclaimed zone of the case.
@@ -315,19 +323,19 @@ func shorthandCases(ecoName string, b base3) []shCase {
 			hi = j3(0, 0, z+1)
 		}
 		if b.pre == "" || b.arity == 3 {
-			add("^"+s, "cargo-caret-arity"+itoa(b.arity), "["+lo+","+hi+")", "no-pre-of-hi", "must")
+			add("^"+s, "cargo-caret-arity"+itoa(b.arity), "["+lo+","+hi+"-0)", "", "must")
 			thi := j3(x, y+1, 0)
 			if b.arity == 1 {
 				thi = j3(x+1, 0, 0)
 			}
-			add("~"+s, "cargo-tilde-arity"+itoa(b.arity), "["+lo+","+thi+")", "no-pre-of-hi", "must")
+			add("~"+s, "cargo-tilde-arity"+itoa(b.arity), "["+lo+","+thi+"-0)", "", "must")
 		}
 		if b.pre == "" {
 			switch b.arity {
 			case 1:
-				add(s+".*", "cargo-wildcard-major", "["+j3(x, 0, 0)+","+j3(x+1, 0, 0)+")", "no-pre-of-hi", "must")
+				add(s+".*", "cargo-wildcard-major", "["+j3(x, 0, 0)+","+j3(x+1, 0, 0)+"-0)", "", "must")
 			case 2:
-				add(s+".*", "cargo-wildcard-minor", "["+j3(x, y, 0)+","+j3(x, y+1, 0)+")", "no-pre-of-hi", "must")
+				add(s+".*", "cargo-wildcard-minor", "["+j3(x, y, 0)+","+j3(x, y+1, 0)+"-0)", "", "must")
 			case 3:
 				add("*", "cargo-star", "*", "no-pre", "must")
 			}
@@ -368,15 +376,15 @@ func shorthandCases(ecoName string, b base3) []shCase {
 		}
 		switch b.arity {
 		case 1:
-			add("~"+s, "conan-tilde-1", "["+s+","+itoa(x+1)+")", "no-pre-of-hi", "must")
+			add("~"+s, "conan-tilde-1", "["+s+","+itoa(x+1)+"-0)", "", "must")
 		default:
-			add("~"+s, "conan-tilde-"+itoa(b.arity), "["+s+","+fmt.Sprintf("%d.%d", x, y+1)+")", "no-pre-of-hi", "must")
+			add("~"+s, "conan-tilde-"+itoa(b.arity), "["+s+","+fmt.Sprintf("%d.%d", x, y+1)+"-0)", "", "must")
 		}
 		switch {
 		case x > 0:
-			add("^"+s, "conan-caret", "["+s+","+itoa(x+1)+")", "no-pre-of-hi", "must")
+			add("^"+s, "conan-caret", "["+s+","+itoa(x+1)+"-0)", "", "must")
 		case y > 0 && b.arity >= 2:
-			add("^"+s, "conan-caret-0y", "["+s+","+fmt.Sprintf("0.%d", y+1)+")", "no-pre-of-hi", "must")
+			add("^"+s, "conan-caret-0y", "["+s+","+fmt.Sprintf("0.%d", y+1)+"-0)", "", "must")
 		}
 	case "gem":
 		zone := "gem-no-pre-of-hi"
